@@ -16,7 +16,7 @@ BOUNDS = {
              "metadata {'label': symbolic string, 'units': symbolic string, 'energy': symbolic real}, symbolic samplings; methods: real, imag, phase, abs, intensity, "
              "Images.interpolate(fft)/crop/tile/diffractograms/integrate_gradient, DiffractionPatterns.crop/block_direct/center_of_mass/integrate_radial/interpolate, "
              "PolarMeasurements.integrate, sum/mean/std/min/max over the ensemble axis, squeeze/expand_dims/__getitem__, relative_difference, normalize_ensemble, arithmetic (+ - * /)",
-    "thorough": "same methods, arrays 2x4 / 2x2x4 and two ensemble axes",
+    "thorough": "same methods, additionally on 2x4 arrays with an ensemble axis of two members",
 }
 OUTSIDE = ["the ASE half of the property (orthogonalize_cell, standardize_cell, Potential, FrozenPhonons, StructureFactor, BlochWaves leave the caller's Atoms unchanged): ASE coerces "
            "positions and cell to float64 buffers, no symbolic value reaches the code, and whether a C-level buffer is written is not a question a solver over this encoding can answer",
@@ -112,11 +112,11 @@ def _str_input(c, name):
     return v
 
 
-def _mk(c, kind, cplx, ens, shape=(2, 2)):
-    full = ((1,) if ens else ()) + shape
+def _mk(c, kind, cplx, ens, shape=(2, 2), nens=1):
+    full = ((nens,) if ens else ()) + shape
     arr = sx.sym_array(c, "a", full, kind="complex" if cplx else "real")
     md = {"label": MStr(_str_input(c, "label")), "units": MStr(_str_input(c, "units")), "energy": c.real("energy", 1)}
-    eax = [OrdinalAxis(label="e", values=(0,))] if ens else []
+    eax = [OrdinalAxis(label="e", values=tuple(range(nens)))] if ens else []
     s0 = c.real("s0", 0, lo_strict=True)
     s1 = c.real("s1", 0, lo_strict=True)
     z = np.zeros(full, dtype=np.complex64 if cplx else np.float32)
@@ -125,7 +125,7 @@ def _mk(c, kind, cplx, ens, shape=(2, 2)):
     elif kind == "patterns":
         m = MM.DiffractionPatterns(z, sampling=(s0, s1), fftshift=True, ensemble_axes_metadata=eax, metadata=md)
     elif kind == "lines":
-        full = ((1,) if ens else ()) + shape[-1:]
+        full = ((nens,) if ens else ()) + shape[-1:]
         arr = sx.sym_array(c, "a", full, kind="complex" if cplx else "real")
         m = MM.RealSpaceLineProfiles(np.zeros(full, dtype=z.dtype), sampling=s0, ensemble_axes_metadata=eax, metadata=md)
     elif kind == "polar":
@@ -237,12 +237,12 @@ METHODS = {
 }
 
 
-def _method(kind, name):
+def _method(kind, name, shape=(2, 2), nens=1):
     kinds, cplx, ens, call, src = METHODS[name]
     rp = R_M(kind, cplx, ens, src)
 
     def fn(c):
-        m = _mk(c, kind, cplx, ens)
+        m = _mk(c, kind, cplx, ens, shape, nens)
         snap = _snapshot(m)
         raised = "returned"
         try:
@@ -292,4 +292,9 @@ def cases(tier):
     for name, (kinds, cplx, ens, call, src) in METHODS.items():
         for kind in kinds:
             out.append(Case(f"{name}.{kind}", _method(kind, name), setup=_setup))
+            if tier != "quick":
+                if name == "min_max":  # every comparison forks: keep the array small
+                    out.append(Case(f"{name}.{kind}.1x2.ens2", _method(kind, name, (1, 2), 2), setup=_setup, budget_s=600))
+                else:
+                    out.append(Case(f"{name}.{kind}.2x4.ens2", _method(kind, name, (2, 4), 2), setup=_setup, budget_s=600))
     return out
